@@ -79,7 +79,14 @@ def run(ctx, chk):
                     if e.kind == "narrow" and e.from_div:
                         seen += 1
                         guards = set(a for a, _ in e.open_deps)
-                        if guards & dividend_atoms:
+                        notes = [s.I.div_notes[v] for v in e.val.lineage if v in s.I.div_notes]
+                        if notes:
+                            _, K, X, V = notes[0]
+                            chk.violation("C03.R3", unit, f"lossy-{e.ty}-cast-of-div-result:guard-admits-equal",
+                                          f"{fn['name']}: the test that guards the division only establishes {X.upper()} <= {V}; for {X.upper()} == {V} the quotient is >= {K} and is "
+                                          f"silently truncated by the cast to {e.ty} (the bound must be strict: divide error when the high part is not below the divisor)",
+                                          f"{where.rsplit(chr(58),1)[0]}:{e.line}", f"{X.upper()} = {V} = 1, low part 0: quotient {K}")
+                        elif guards & dividend_atoms:
                             chk.undecided_("C03.R3", f"{unit}@{e.line}", "a test involving the dividend guards the cast; range not provable by intervals")
                         else:
                             chk.violation("C03.R3", unit, f"lossy-{e.ty}-cast-of-div-result",
